@@ -58,7 +58,7 @@ def gen_content(rnd, big=False):
     pool_ia = rnd.sample(range(0x1001, 0xFFFF), 80)
     gas = rnd.sample(range(1, 0xFFFF), rnd.choice((0, 1, 2, 5, 12)))
     c = {"project": rnd.choice(["Test", "Haus & Hof <1>", "Ünïcode \"quoted\"", "p" * 40]), "created": f"20{rnd.randrange(10, 30)}-0{rnd.randrange(1, 10)}-1{rnd.randrange(10)}T0{rnd.randrange(10)}:45:22",
-         "password": rnd.choice(["pwd", "test", "pässwörd €", "a" * 33, "x"]),
+         "password": rnd.choice(["pwd", "test", "pässwörd €", "a" * 33, "x", " pwd", "pwd ", "p w\td", "\tpw\n"]),      # blanks are characters of the password
          "groups": [[g, bytes(rnd.randrange(256) for _ in range(16)).hex()] for g in gas],
          "backbone": rnd.choice([None, {"mc": "224.0.23.12", "latency": rnd.choice((1000, 2000, 1)), "key": bytes(rnd.randrange(256) for _ in range(16)).hex()},
                                  {"mc": "224.0.23.12", "latency": None, "key": None}]),
@@ -300,7 +300,8 @@ def run(ck):
             ex.append(f"{name}: {kind}")
         emptied = tmp / "e.knxkeys"
         emptied.write_text(re.sub(r' Signature="[^"]*"', ' Signature=""', xml, count=1), encoding="utf-8")
-        for wrong in (password + "x", password.upper() if password.upper() != password else password + " ", ""):
+        wrongs = [password + "x", password.upper(), "", password + " ", " " + password, password + "\n", password.strip(), password[:-1]]
+        for wrong in [w for k_, w in enumerate(wrongs) if w != password and w not in wrongs[:k_]]:
             out, _ = load(emptied, wrong)
             recs.append({"t": "tamper", "kind": "password", "signed_change": 1, "verdict": "accepted" if out == "ok" else out, "content_same": 0})
             ex.append(f"{name}: signature emptied and password {wrong!r} instead of {password!r}")
